@@ -63,6 +63,8 @@ def judge(text, exp_text, exp_line, case, p=None):
         if not EOF_RE.search(msg):
             return [Failure('truncation-not-reported-as-end-of-input', f'{text!r}: message {msg!r}', case)]
         return []
+    if exp_text == '\x00NEWLINE':
+        exp_text = ''       # a line break has no visible text to name; only its line is judged
     if exp_text not in msg:
         return [Failure('token-not-named', f'{text!r}: message {msg!r} does not name the offending token {exp_text!r}', case)]
     m = re.search(r'(?i)\bline\W{0,3}(\d+)', msg)
@@ -105,7 +107,7 @@ def cases(draw):
             parts.append(unparse.minimal_stmt(draw(sentences.programs(max_depth=2, max_stmts=1))[0]))
         parts.append(pick(['\n', '\n', ';', '\r\n', '\n\n', ' # c\n', '; ', '\r\n\r\n', ';;', '\n# only a comment\n']))
     src = pick(['', '', '', '\n', '\n\n', '\r\n', ' \n\t\n', '# c\n']) + ''.join(parts[:-1])
-    mode = pick(['operand', 'operand', 'binop', 'binop', 'closer', 'comma', 'trunc'])
+    mode = pick(['operand', 'operand', 'binop', 'binop', 'closer', 'comma', 'trunc', 'dangling', 'assign-literal'])
     return src, mode, n(10 ** 6), n(12)
 
 
@@ -149,6 +151,30 @@ def build(src, mode, pos_seed, var):
         t = c[pos_seed % len(c)]
         new = src[:t.end] + ' , ' + src[t.end:]
         return new, ',', 1 + new.count('\n', 0, t.end + 1)
+    if mode == 'dangling':
+        # an operator left dangling at the end of a line: the offending token is the line break itself
+        c = [i for i, t in enumerate(toks) if t.kind == 'NEWLINE' and t.depth == 0 and i > 0 and toks[i - 1].kind in OPERAND_END
+             and toks[i - 1].depth == 0]
+        if not c:
+            return None
+        i = c[pos_seed % len(c)]
+        t, prev = toks[i], toks[i - 1]
+        if '#' in src[prev.end:t.pos]:
+            return None         # a comment sits between the last token and the line break
+        stray = ['+', '*', 'and', 'or', 'if x', '-'][var % 6]
+        new = src[:prev.end] + ' ' + stray + src[prev.end:]
+        if t.text == ';':
+            return new, ';', 1 + new.count('\n', 0, t.pos + len(stray) + 1)
+        return new, '\x00NEWLINE', 1 + new.count('\n', 0, t.pos + len(stray) + 1)
+    if mode == 'assign-literal':
+        # an assignment operator after something that can never be assigned to
+        c = [t for t in toks if t.kind in ('NUMBER', 'STRING', 'TRUE', 'FALSE', 'NONE') and t.depth == 0]
+        if not c:
+            return None
+        t = c[pos_seed % len(c)]
+        stray = ['=', '+=', '-=', '*=', '/='][var % 5]
+        new = src[:t.end] + ' ' + stray + ' 1 ' + src[t.end:]
+        return new, stray, 1 + new.count('\n', 0, t.end + 1)
     # truncation at a token boundary
     t = toks[pos_seed % len(toks)]
     new = src[:t.pos].rstrip(' \t')
